@@ -18,6 +18,7 @@ sys.path.insert(0, os.path.dirname(os.path.abspath(__file__)))
 import rustparse
 
 PIN = os.path.join(os.path.dirname(os.path.abspath(__file__)), 'pinned_skeleton.json')
+PRIM = {'u8', 'u16', 'u32', 'u64', 'u128', 'usize', 'i8', 'i16', 'i32', 'i64', 'i128', 'isize', 'f32', 'f64', 'char', 'bool', 'str'}
 DROP_ATTRS = ('inline', 'allow', 'must_use', 'doc', 'deprecated', 'warn', 'deny(missing_docs', 'rustfmt')
 
 def text(toks):
@@ -91,7 +92,11 @@ def segment(toks, prefix, out, translated_lines, fnnames):
             fi = [x for x, t in enumerate(header) if t.val == 'fn'][0]
             name = header[fi + 1].val
             fnnames.append((prefix, name))
-            if header[fi].line in translated_lines: body = '{…}'
+            if header[fi].line in translated_lines:
+                # the translation models every integer type as an unbounded-then-checked 64-bit value and spells casts out; the
+                # primitive type names a body mentions (annotations, casts, suffixes, turbofish) stay part of the skeleton
+                prim = [t.val for t in toks[j:k + 1] if t.kind == 'ident' and t.val in PRIM] + [t.suffix for t in toks[j:k + 1] if getattr(t, 'suffix', None)]
+                body = '{… %s}' % ' '.join(prim) if prim else '{…}'
             else: body = text(toks[j:k + 1])
             out.append(prefix + atxt + htxt + ' ' + body)
         else:
@@ -112,6 +117,21 @@ def skeleton(repo, report):
             out = []; fnn = []
             segment(toks, '', out, tl.get(rel, set()), fnn)
             sk[rel] = sorted(out); names[rel] = fnn
+    # the build description: features, dependencies, profiles, edition, a build script (they decide which code is compiled and how)
+    man = []
+    cp = os.path.join(repo, 'Cargo.toml')
+    if os.path.exists(cp):
+        sec = ''
+        for l in open(cp):
+            l = l.split('#', 1)[0].strip()
+            if not l: continue
+            if l.startswith('['): sec = l; continue
+            if sec in ('[dependencies]', '[features]', '[lib]', '[build-dependencies]') or sec.startswith('[profile') or sec.startswith('[target') or sec.startswith('[dependencies.') \
+               or (sec == '[package]' and l.split('=')[0].strip() in ('edition', 'build', 'links', 'autobins')):
+                man.append('%s %s' % (sec, re.sub(r'\s+', ' ', l)))
+    for extra in ('build.rs', '.cargo/config.toml', '.cargo/config', 'rust-toolchain', 'rust-toolchain.toml'):
+        if os.path.exists(os.path.join(repo, extra)): man.append('file %s: %s' % (extra, re.sub(r'\s+', ' ', open(os.path.join(repo, extra)).read())[:2000]))
+    sk['Cargo.toml'] = sorted(man); names['Cargo.toml'] = []
     return sk, names
 
 def main():
